@@ -24,8 +24,10 @@ an identifiable deviating convention the signature names that convention."""
 import sys, os
 sys.path.insert(0, os.path.dirname(os.path.dirname(os.path.abspath(__file__))))
 import hashlib
+import json
 import itertools
 import math
+import shutil
 import traceback
 import warnings
 
@@ -202,7 +204,7 @@ def make_blacklist(kind, n):
     raise ValueError(kind)
 
 
-BASE = dict(mode="gw", ig=1, nnz=1, cnt=0, mad=0, bl=None, tol=1e-5, maxit=50, x0=None, rescale=True, cs=None)
+BASE = dict(mode="gw", ig=1, nnz=1, cnt=0, mad=0, bl=None, tol=1e-5, maxit=25, x0=None, rescale=True, cs=None)
 
 
 def O(**kw):
@@ -386,7 +388,7 @@ def evaluate(rec, clr, F, sizes, mspec, opt, store_path=None):
     case = dict(matrix=mspec, chroms=list(map(int, sizes)), opt=opt)
     mode = opt["mode"]
     out = rec.guarded("balance-runs", case, lambda: call_balance(clr, opt, n),
-                      signature=f"balance-runs:exception:{mode}")
+                      signature=f"balance-runs:exception:{mode}:chunksize={'None' if opt['cs'] is None else 'k'}:{'nnz>0' if F.any() else 'empty-cooler'}")
     if out is None:
         return
     bias, stats = out
@@ -551,16 +553,21 @@ def ofat(mode):
         out.append(O(mode=mode, mad=m, nnz=0))
     for b in ("[1]", "[0,last]", "[]", "array[2]"):
         out.append(O(mode=mode, bl=b))
-    for t in (1e-2, 1e-9, 1e6):
-        out.append(O(mode=mode, tol=t, maxit=200 if t < 1e-5 else 50))
-    for mi in (1, 3, 200):
+    for t in (1e-2, 1e-8, 1e6):
+        out.append(O(mode=mode, tol=t, maxit=100 if t < 1e-5 else 25))
+    for mi in (1, 3, 100):
         out.append(O(mode=mode, maxit=mi))
     for x in ("ones", "rand", "zero@1", "nan@last", "rand+zero@0+nan@2"):
         out.append(O(mode=mode, x0=x))
     out.append(O(mode=mode, rescale=False))
     out.append(O(mode=mode, rescale=False, ig=0, nnz=0))
-    out.append(O(mode=mode, cs=3))
+    out.append(O(mode=mode, cs=3, tol=1e-3))
     return out
+
+
+def one_sweep(**kw):
+    """tol so large that the first sweep reports convergence: the NaN-set / dense-procedure clauses apply in full at 1 sweep's cost"""
+    return O(tol=1e6, **kw)
 
 
 GRID = dict(ig=(0, 1, 2, 3), nnz=(0, 1, 2, 3), cnt=(0, 3, 6), mad=(0, 1, 5), bl=(None, "[1]", "[0,last]"))
@@ -571,9 +578,9 @@ def random_opts(rng, mode, k):
     for _ in range(k):
         out.append(O(mode=mode, ig=rng.choice(GRID["ig"]), nnz=rng.choice(GRID["nnz"]), cnt=rng.choice(GRID["cnt"]),
                      mad=rng.choice(GRID["mad"]), bl=rng.choice((None, None, "[1]", "[0,last]", "[]")),
-                     tol=rng.choice((1e-5, 1e-5, 1e-2, 1e-8, 1e6)), maxit=rng.choice((50, 50, 200, 2)),
+                     tol=rng.choice((1e-5, 1e-5, 1e-2, 1e-8, 1e6)), maxit=rng.choice((25, 25, 100, 2)),
                      x0=rng.choice((None, None, "rand", "zero@1", "nan@last")), rescale=rng.choice((True, True, False)),
-                     cs=rng.choice((None, None, 4))))
+                     cs=rng.choice((None, None, None, 4))))
     return out
 
 
@@ -624,9 +631,31 @@ def rand_spec(seed, n=30):
             "diagonly": [int(g.integers(n))], "weak": sorted(map(int, g.choice(n, 2, replace=False))), "strong": [int(g.integers(n))]}
 
 
+def replay(B):
+    """./check C10 --replay <file>: re-evaluate every contract on the recorded case only"""
+    r = json.load(open(B.replay_file))
+    case = r["case"]
+    rec = Rec()
+    F = build_matrix(case["matrix"])
+    sizes = tuple(case["chroms"])
+    path = B.path("replay.cool")
+    make_cooler(path, layout_bins(sizes), pixels_from_dense(F, True), True)
+    evaluate(rec, cooler.Cooler(path), F, sizes, case["matrix"], case["opt"],
+             store_path=path if r["contract"].startswith("stored") else None)
+    out = dict(replay=B.replay_file, contract=r["contract"], signature=r["signature"],
+               reproduced=any(f[0] == r["contract"] and f[4] == r["signature"] for f in rec.fails),
+               failures=[dict(contract=f[0], signature=f[4], observed=f[2], expected=f[3]) for f in rec.fails],
+               passed=rec.counts)
+    shutil.rmtree(B.tmp, ignore_errors=True)
+    print(json.dumps(out, default=str))
+    return 0
+
+
 def main():
     B = Bounded("C10", "bounded/C10.py")
     B.max_violations = 60
+    if B.replay_file:
+        return replay(B)
     tasks = []
     tid = itertools.count()
     tmp = B.path("w")
@@ -636,71 +665,85 @@ def main():
         tasks.append((tmp, next(tid), mspec, tuple(int(s) for s in sizes), opts, store))
 
     if not B.thorough:
-        # S1: every graph on 4 bins (0/1 off the diagonal, diagonal (1,0,2,1)) x 3 layouts x all modes x ignore_diags {0,1}
+        # S1: every graph on 4 bins (0/1 off the diagonal, diagonal (1,0,2,1)) x layouts 2+2 / 2+1+1 x modes
         for F in graphs(4, (0, 1), diag=(1, 0, 2, 1)):
-            for sizes in LAYOUTS[4]:
-                opts = [O(mode=m, ig=ig, nnz=0) for m in modes_for(sizes) for ig in (0, 1)]
+            for sizes in ((2, 2), (2, 1, 1)):
+                ms = modes_for(sizes) if sizes == (2, 2) else ["cis", "trans"]
+                opts = [one_sweep(mode=m, ig=ig, nnz=0) for m in ms for ig in (0, 1)]
                 if sizes == (2, 2):
-                    opts += [O(mode="gw", ig=1, nnz=z) for z in (1, 2, 3)]
+                    opts += [one_sweep(mode="gw", ig=ig, nnz=2) for ig in (0, 1)] + [O(mode="gw", ig=1, nnz=0)]
+                elif F[0, 1] == 0:  # the only cis entry off the diagonal: irrelevant to trans, skip the duplicate
+                    opts += [O(mode="trans", ig=1, nnz=0)]
                 add(upper_spec(F), sizes, opts)
-        # S2: curated matrices x 3 layouts x all modes x (every value of every option axis around the base + seeded vectors)
-        for name, F in curated():
-            for sizes in LAYOUTS[len(F)]:
+        # the empty cooler (no pixel at all): every mode, chunksize None and 3
+        add(upper_spec(np.zeros((4, 4), dtype=int)), (2, 2), [one_sweep(mode=m, ig=1, nnz=z, cs=c) for m in ("gw", "cis", "trans") for z in (0, 1) for c in (None, 3)])
+        # S2: curated matrices; every value of every option axis around the base on the 2-chromosome layout, seeded vectors elsewhere
+        for k, (name, F) in enumerate(curated()):
+            lays = LAYOUTS[len(F)]
+            opts = []
+            for m in modes_for(lays[1]):
+                opts += ofat(m) if k in (0, 1, 2) else [O(mode=m), O(mode=m, ig=0, nnz=0), O(mode=m, mad=1, nnz=0), O(mode=m, ig=2, nnz=2), O(mode=m, bl="[0,last]"), O(mode=m, x0="zero@1")]
+            add(upper_spec(F), lays[1], opts, store=True)
+            for sizes in (lays[0], lays[2]):
                 opts = []
                 for m in modes_for(sizes):
-                    opts += ofat(m) + random_opts(B.rng, m, 4)
-                add(upper_spec(F), sizes, opts, store=True)
+                    opts += random_opts(B.rng, m, 3)
+                add(upper_spec(F), sizes, opts)
         # S3: seeded 30-bin matrices
         for s in range(2):
             spec = rand_spec(1000 * B.seed + s)
-            for sizes in LAYOUTS[30][1:]:
-                opts = []
-                for m in modes_for(sizes):
-                    opts += [O(mode=m, nnz=3), O(mode=m, ig=2, nnz=5, mad=5), O(mode=m, ig=0, nnz=0, mad=1, cnt=6)] + random_opts(B.rng, m, 3)
-                add(spec, sizes, opts)
-        B.bound = ("all 64 symmetric 0/1 patterns on 4 bins (diagonal 1,0,2,1) x chromosome layouts {4 | 2+2 | 2+1+1} x every mode x "
-                   "ignore_diags {0,1} (+ min_nnz 1..3 genome-wide on 2+2); 6 curated 5-6 bin matrices (dense, empty row, isolated/diagonal-only bin, "
-                   "graded marginals, banded, disconnected blocks + star, chain to a blacklisted bin) x 3 layouts x every mode x every value of each option "
-                   "axis around a base vector (ignore_diags 0..3, min_nnz 0..3, min_count {0,3,6}, mad_max {0,1,5}, 5 blacklists, tol {1e-9,1e-5,1e-2,1e6}, "
-                   "max_iters {1,3,50,200}, 6 initial-weight vectors, rescale on/off, chunksize {None,3}) + 4 seeded option vectors each; "
-                   "2 seeded 30-bin matrices x 2 layouts x every mode x 6 vectors")
+            sizes = LAYOUTS[30][1 + s]
+            opts = []
+            for m in modes_for(sizes):
+                opts += [O(mode=m, nnz=3), O(mode=m, ig=2, nnz=5, mad=5), O(mode=m, ig=0, nnz=0, mad=1, cnt=6)] + random_opts(B.rng, m, 1)
+            add(spec, sizes, opts)
+        B.bound = ("all 64 symmetric 0/1 patterns on 4 bins (diagonal 1,0,2,1) x {2+2: genome-wide, cis, trans | 2+1+1: cis, trans} x ignore_diags {0,1} "
+                   "at one sweep (tol 1e6; min_nnz {0,2} genome-wide) and to tol 1e-5 at ignore_diags 1 (genome-wide on 2+2, trans on 2+1+1); the empty 4-bin cooler x every mode x chunksize {None,3}; "
+                   "3 curated 5-6 bin matrices (dense, empty row + diagonal-only bin, graded marginals) x 2 chromosomes x every mode x "
+                   "every value of each option axis around a base vector (ignore_diags 0..3, min_nnz 0..3, min_count {0,3,6}, mad_max {0,1,5}, 5 blacklists, "
+                   "tol {1e-8,1e-5,1e-2,1e6}, max_iters {1,3,25,100}, 6 initial-weight vectors, rescale on/off, chunksize {None,3}); 3 more curated (banded, "
+                   "blocks + star, chain to a blacklisted bin) x 6 vectors; all 6 x {1, 3 chromosomes} x every mode x 3 seeded vectors; 2 seeded 30-bin matrices (18+12 / 14+9+7 bins) x every mode x 4 vectors")
         B.exhaustive = True
     else:
-        # T1: every symmetric 0/1 matrix on 4 bins (diagonal included: 1024) x 3 layouts x every mode x ig {0,1,2} x min_nnz {0,1,2}
+        # T1: every symmetric 0/1 matrix on 4 bins (diagonal included: 1024)
         for F in graphs(4, (0, 1)):
-            for sizes in LAYOUTS[4]:
-                add(upper_spec(F), sizes, [O(mode=m, ig=ig, nnz=z) for m in modes_for(sizes) for ig in (0, 1, 2) for z in (0, 1, 2)])
-        # T2: every symmetric matrix on 4 bins with off-diagonal entries 0/1/2 (729) x 2 layouts x every mode x min_count x mad_max
+            add(upper_spec(F), (2, 2), [one_sweep(mode="gw", ig=ig, nnz=z) for ig in (0, 1, 2) for z in (0, 2)]
+                + [one_sweep(mode=m, ig=ig, nnz=0) for m in ("cis", "trans") for ig in (0, 1, 2)] + [O(mode="gw", ig=1, nnz=0)])
+            add(upper_spec(F), (2, 1, 1), [one_sweep(mode=m, ig=ig, nnz=1) for m in ("cis", "trans") for ig in (0, 1)])
+        # T2: every symmetric matrix on 4 bins with off-diagonal entries 0/1/2 (729): min_count x mad_max
         for F in graphs(4, (0, 1, 2), diag=(1, 0, 2, 1)):
-            for sizes in ((2, 2), (2, 1, 1)):
-                add(upper_spec(F), sizes, [O(mode=m, ig=1, nnz=0, cnt=c, mad=d) for m in modes_for(sizes) for c in (0, 2, 3) for d in (0, 1, 5)])
-        # T3: every graph on 5 bins (1024) x layout 3+2 and 2+2+1 x every mode x ig {1,2} x min_nnz {0,2}
+            add(upper_spec(F), (2, 2), [one_sweep(mode=m, ig=1, nnz=0, cnt=c, mad=d) for m in ("gw", "cis") for c in (0, 2, 3) for d in (0, 1, 5)]
+                + [one_sweep(mode="trans", ig=1, nnz=0, mad=d) for d in (0, 1, 5)] + [O(mode="gw", ig=1, nnz=0, mad=d) for d in (0, 1)])
+        # T3: every graph on 5 bins (1024)
         for F in graphs(5, (0, 1), diag=(1, 0, 2, 1, 1)):
-            for sizes in ((3, 2), (2, 2, 1)):
-                add(upper_spec(F), sizes, [O(mode=m, ig=ig, nnz=z) for m in modes_for(sizes) for ig in (1, 2) for z in (0, 2)])
-        # T4: curated x layouts x every mode x FULL grid ig x nnz x cnt x mad x blacklist (432) + one-factor vectors
-        for name, F in curated():
-            for sizes in LAYOUTS[len(F)]:
+            add(upper_spec(F), (3, 2), [one_sweep(mode="gw", ig=ig, nnz=z) for ig in (1, 2) for z in (0, 2)]
+                + [one_sweep(mode=m, ig=ig, nnz=0) for m in ("cis", "trans") for ig in (1, 2)] + [O(mode="gw", ig=1, nnz=0)])
+        # T4: curated: FULL grid ig x nnz x cnt x mad x blacklist (432) on the 2-chromosome layout, one-factor vectors on every layout
+        for k, (name, F) in enumerate(curated()):
+            lays = LAYOUTS[len(F)]
+            for m in modes_for(lays[1]):
+                if k in (0, 1, 2):
+                    add(upper_spec(F), lays[1], full_grid(m), store=True)
+            for sizes in lays:
                 for m in modes_for(sizes):
-                    add(upper_spec(F), sizes, full_grid(m) + ofat(m), store=True)
-        # T5: seeded sampling beyond the bound: 30-bin and 8-12 bin random matrices, random option vectors
-        for s in range(60):
+                    add(upper_spec(F), sizes, ofat(m))
+        # T5: seeded sampling beyond the bound: 8-30 bin random matrices, random option vectors
+        for s in range(30):
             nn = 30 if s % 2 == 0 else int(B.rng.choice((8, 10, 12)))
             spec = rand_spec(1000 * B.seed + s, nn)
-            if nn == 30:
-                lays = LAYOUTS[30]
-            else:
-                lays = [(nn,), (nn - 3, 3), (nn - 5, 3, 2)]
+            lays = LAYOUTS[30] if nn == 30 else [(nn,), (nn - 3, 3), (nn - 5, 3, 2)]
             for sizes in lays:
                 opts = []
                 for m in modes_for(sizes):
-                    opts += random_opts(B.rng, m, 12)
+                    opts += random_opts(B.rng, m, 8)
                 add(spec, sizes, opts)
-        B.bound = ("all 1024 symmetric 0/1 matrices on 4 bins x layouts {4 | 2+2 | 2+1+1} x every mode x ignore_diags 0..2 x min_nnz 0..2; "
-                   "all 729 symmetric matrices on 4 bins with off-diagonal entries 0/1/2 x {2+2 | 2+1+1} x every mode x min_count {0,2,3} x mad_max {0,1,5}; "
-                   "all 1024 graphs on 5 bins x {3+2 | 2+2+1} x every mode x ignore_diags {1,2} x min_nnz {0,2}; 6 curated 5-6 bin matrices x 3 layouts x "
-                   "every mode x full grid ignore_diags 0..3 x min_nnz 0..3 x min_count {0,3,6} x mad_max {0,1,5} x 3 blacklists + every value of tol, "
-                   "max_iters, x0, rescale, chunksize around the base; beyond the bound: 60 seeded random matrices (8-30 bins) x 3 layouts x every mode x 12 seeded option vectors")
+        B.bound = ("all 1024 symmetric 0/1 matrices on 4 bins x {2+2: genome-wide x ignore_diags 0..2 x min_nnz {0,2}, cis and trans x ignore_diags 0..2 | "
+                   "2+1+1: cis, trans x ignore_diags {0,1}} at one sweep (tol 1e6) + genome-wide to tol 1e-5; all 729 symmetric matrices on 4 bins with off-diagonal "
+                   "entries 0/1/2 x 2+2 x {genome-wide, cis} x min_count {0,2,3} x mad_max {0,1,5} (+ trans x mad_max) at one sweep (+ genome-wide mad_max {0,1} to tol "
+                   "1e-5); all 1024 graphs on 5 bins x 3+2 x every mode x ignore_diags {1,2} (genome-wide also min_nnz {0,2}) at one sweep (+ genome-wide to tol 1e-5); "
+                   "3 curated 5-6 bin matrices x 2 chromosomes x every mode x full grid ignore_diags 0..3 x min_nnz 0..3 x min_count {0,3,6} x mad_max {0,1,5} x "
+                   "3 blacklists; 6 curated x 3 layouts x every mode x every value of tol, max_iters, x0, rescale, chunksize, blacklist around the base; "
+                   "beyond the bound: 30 seeded random matrices (8-30 bins) x 3 layouts x every mode x 8 seeded option vectors")
         B.exhaustive = False
     B.rule = ("case = (matrix, chromosome layout, option vector[, chromosome]); a run that does not report convergence is outside the property "
               "(only converged-flag is evaluated); non-trivial: NaN-set when a bin is retained, flatness when >= 2 bins are retained and scale > sqrt(N var) "
@@ -709,8 +752,9 @@ def main():
     state = dict(sampled=set(), recorded={}, failcount={})
     if B.thorough:
         from multiprocess import Pool
+        tasks.sort(key=lambda t: -len(t[4]))  # big tasks first (stable, deterministic): keeps the 8 workers evenly loaded
         with Pool(8) as pool:
-            for rec in pool.imap(run_task, tasks, chunksize=4):
+            for rec in pool.imap(run_task, tasks, chunksize=1):
                 merge(B, rec, state)
     else:
         for t in tasks:
